@@ -14,8 +14,31 @@ thread_local! {
     static COUNT: Cell<usize> = const { Cell::new(0) };
 }
 
+/// A request of this size or more made by the code under test cannot be served by this machine: the process would abort in
+/// `handle_alloc_error`. The engine installs a per-thread hook that reports the scenario being run as a violation (with its
+/// replay file) and exits with status 1 instead (an allocator must not unwind, so the report cannot be an ordinary panic).
+pub const ABSURD: usize = 1 << 36;
+
+pub type AbsurdHook = (fn(*const (), usize), *const ());
+
+thread_local! {
+    static ON_ABSURD: Cell<Option<AbsurdHook>> = const { Cell::new(None) };
+}
+
+pub fn set_absurd_hook(h: Option<AbsurdHook>) {
+    ON_ABSURD.with(|c| c.set(h));
+}
+
 #[inline]
 fn note(size: usize) {
+    if size >= ABSURD {
+        // armed or not: the harness also calls the codec directly (expected results), and never asks for this much itself
+        let was = ARMED.try_with(|a| a.replace(false)).unwrap_or(false);
+        if let Ok(Some((f, p))) = ON_ABSURD.try_with(|c| c.get()) {
+            f(p, size);
+        }
+        let _ = ARMED.try_with(|a| a.set(was));
+    }
     // try_with: the allocator may be called during thread teardown
     let _ = ARMED.try_with(|a| {
         if a.get() {
